@@ -75,6 +75,15 @@ CHECKS = {
                      "(thorough 3) over one representative per operand shape go text -> binary -> text -> parse and must be stable.",
                 note="operands in range; 32-bit integers on the boundary lattice",
                 ref="3/C17"),
+    "C19": dict(cat="exploration", tech="exhaustive enumeration over a stated finite lattice of angles x tolerances, exact rational arithmetic oracle",
+                text="Not all doubles: every k*pi/2^m (m<=10, |k|<=2^(m+2)), each +-1 ulp and +-tol, 0 and 2*pi +- 1e-17..1e-3, and a "
+                     "uniform grid of 2^12 (thorough 2^16) points on [-4pi,4pi], times the nine tolerances 1e-1..1e-9, are decomposed by "
+                     "the real function; every step must have 0<=n,d<=255 and the exact rational sum times pi must be within tol of "
+                     "the angle modulo 2*pi. A sublattice goes through q.rot_X/Y/Z(angle=) and the full SDK-to-controller pipeline: "
+                     "one rotation instruction per step, state-vector effect equal to the rotation. Seeded supplementary samples are "
+                     "reported separately and are not part of the exhaustive claim.",
+                note="finite lattice of doubles; float slack 1e-12",
+                ref="3/C19"),
 }
 
 PENDING = {
